@@ -203,7 +203,7 @@ func (m *Model) RunPathAPI(s *Sink, rule string) {
 				if mu, isMu := in.(*ssa.MapUpdate); isMu {
 					pos = m.InstrPos(mu)
 					for _, f := range expandFacts(factsAt(b)) {
-						if c, isC := f.Cond.(*ssa.Call); isC && !f.Holds && c.Call.StaticCallee() != nil && c.Call.StaticCallee().Name() == "HasReserveStmt" {
+						if c, isC := f.Cond.(*ssa.Call); isC && !f.Holds && c.Call.StaticCallee() != nil && canonFnName(c.Call.StaticCallee()) == "HasReserveStmt" {
 							ok = true
 						}
 					}
@@ -234,7 +234,7 @@ func (m *Model) RunPathAPI(s *Sink, rule string) {
 					for _, fb := range failureTargets(ex) {
 						if ret, isRet := fb.Instrs[len(fb.Instrs)-1].(*ssa.Return); isRet && len(ret.Results) == 2 && !isNilConst(ret.Results[1]) {
 							for _, fin := range fb.Instrs {
-								if c, isC := fin.(*ssa.Call); isC && c.Call.StaticCallee() != nil && c.Call.StaticCallee().Name() == "New" && len(c.Call.Args) >= 4 {
+								if c, isC := fin.(*ssa.Call); isC && c.Call.StaticCallee() != nil && canonFnName(c.Call.StaticCallee()) == "New" && len(c.Call.Args) >= 4 {
 									if msg, okm := constOfValue(c.Call.Args[3]); okm && msg == "template not found" {
 										ok = true
 									}
